@@ -114,10 +114,13 @@ def record_main(argv: list[str]):
 
 SOURCE_TMPL = """/* header of {n} */
 #include 'inc_{n}'
+// ------------------------------
 // a line comment
 alpha  {a};
+// ------------------------------
 beta  "$alpha + 1";
 zeta  'two words';
+// ------------------------------
 scopeA
 {{
     inner  $alpha;
